@@ -108,11 +108,14 @@ Ante(m, g, ev) ==
     [] m = "X02_handover"      -> ok /\ o.op \in SacFns /\ ~Own(g)
     [] m = "X02_effect"        -> TRUE
     [] m = "X02_chief_manages" -> /\ Generic(g) /\ o.key = g.chief /\ o.sig = "good"
-                                  /\ \/ o.op \in MgmtFns /\ o.amt >= 0 /\ (o.op = "update_limit" => HasLim(g, o.okey))
+                                  /\ \/ o.op = "assign" /\ o.okey \notin g.ops          \* (a stricter contract may refuse
+                                     \/ o.op = "remove" /\ o.okey \in g.ops             \*  no-ops, zero limits, limits for
+                                     \/ o.op = "set_limit" /\ o.amt > 0 /\ o.okey \in g.ops   \* unregistered keys)
+                                     \/ o.op = "update_limit" /\ o.amt > 0 /\ HasLim(g, o.okey)
                                      \/ o.op = "set_admin" /\ o.via = "sac" /\ Own(g)   \* the SAC asks nothing else
     [] m = "X02_operator_accepted" ->
          /\ Generic(g) /\ Own(g) /\ o.via = "sac" /\ o.sig = "good" /\ o.key \in g.ops
-         /\ \/ o.op = "mint" /\ HasLim(g, o.key) /\ o.amt >= 0 /\ g.lim[o.key].curr + o.amt <= g.lim[o.key].max
+         /\ \/ o.op = "mint" /\ HasLim(g, o.key) /\ o.amt > 0 /\ g.lim[o.key].curr + o.amt <= g.lim[o.key].max
                /\ g.authz[o.acct]                                    \* the SAC itself refuses a deauthorized receiver
             \/ o.op = "clawback" /\ o.amt > 0 /\ g.bal[o.acct] >= o.amt   \* ... and a missing or insufficient balance
             \/ o.op = "set_authorized"
@@ -146,7 +149,15 @@ Key(m, g, ev) ==
     [] m = "X02_operator_accepted" ->
          IF ev.op.op \in {"mint", "clawback"} THEN "sac_call_has_no_argument_2" ELSE "set_authorized_refused"
     [] OTHER -> "other"
-\* monitors whose failure leaves the ghost state in step with the code (the refused call changed nothing)
-NonFatal == {"X02_chief_manages", "X02_operator_accepted"}
+\* The next ghost state: the recorded call's prescribed effect, with the observable part (the SAC's state, the
+\* wrapper's role holders) taken from what was read back.  The two agree unless X02_effect has just failed and
+\* been reported; going on from the observed state keeps one deviation from being reported again at every
+\* later step, so a run is judged to its end (the trace specification never skips the rest of a run).
+GStep(g, ev) ==
+  LET g2 == GNext(g, ev) IN
+  [g2 EXCEPT !.sacAdmin = ev.obs.admin,
+             !.bal = [h \in Holders |-> ev.obs.bal[h]],
+             !.authz = [h \in Holders |-> ev.obs.authz[h]],
+             !.mgr = IF Generic(g) THEN g2.mgr ELSE ev.obs.mgr]
 Failing(g, ev) == {m \in Monitors : ~Holds(m, g, ev)}
 =============================================================================
